@@ -56,6 +56,26 @@ def run(chk: Check, proj: Project) -> None:
                lambda sub: C06.s2b_push_pop(sub, proj, w), only=lambda o: o.construct.endswith(">.push") or o.construct.endswith(">.update") or o.construct.endswith(">.dicts.insert") or o.construct.endswith(">.dicts.append"))
 
 
+def defs_closure(f: ast.AST, name: str) -> List[ast.expr]:
+    """All expressions that (transitively, through local names) define `name` in `f`."""
+    out: List[ast.expr] = []
+    seen: Set[str] = set()
+    todo = [name]
+    while todo:
+        n_ = todo.pop()
+        if n_ in seen:
+            continue
+        seen.add(n_)
+        for _s, v in assignments(f, n_):
+            if v is None:
+                continue
+            out.append(v)
+            for x in ast.walk(v):
+                if isinstance(x, ast.Name) and x.id not in seen:
+                    todo.append(x.id)
+    return out
+
+
 def capture_model(ff: ast.AST) -> Tuple[Optional[str], List[Dict[str, Any]]]:
     """Abstract model of FillNode._extract_fill's variable capture: the marker index variable and, for every loop over
     the Context's layers, [{loop, whole, lower, upper, step, reversed, index_var, layer_var, stores:[{node, kind, atoms}]}].
@@ -151,7 +171,7 @@ def s12_layer_frame(chk: Check, proj: Project, w) -> None:
                 for e, pol in st["atoms"]:
                     t = norm(e)
                     is_forloop = isinstance(e, ast.Compare) and isinstance(e.left, ast.Constant) and e.left.value == "forloop"
-                    is_idx = isinstance(e, ast.Compare) and lp["index_var"] is not None and {norm(e.left), norm(e.comparators[0])} == {lp["index_var"], idx}
+                    is_idx = isinstance(e, ast.Compare) and ((lp["index_var"] is not None and {norm(e.left), norm(e.comparators[0])} == {lp["index_var"], idx}) or (norm(e.left) == idx and isinstance(e.ops[0], (ast.Is, ast.IsNot)) and isinstance(e.comparators[0], ast.Constant) and e.comparators[0].value is None))
                     is_keyfilter = ".startswith('_')" in t
                     if not (is_forloop or is_idx or is_keyfilter):
                         extra.append((st["node"], t, pol))
@@ -180,17 +200,42 @@ def s12_layer_frame(chk: Check, proj: Project, w) -> None:
                f"the captured variables are applied in {len(loops)} separate passes (`for .. in {norm(loops[0]['loop'].iter)}` then `for .. in {norm(loops[-1]['loop'].iter)}`): whatever the later pass stores shadows NEARER bindings of the earlier one - `{{% for x in xs %}}{{% with x=1 %}}{{% fill %}}{{{{ x }}}}` renders the loop value instead of 1")
     rm, rf = proj.func("slots", "_nodelist_to_slot_render_func.render_func")
     chk.analysed(fkey(rm, rf))
-    iv = local_from(rf, lambda v: isinstance(v, ast.Call) and last_attr(v.func) == "get_last_index" and "_COMPONENT_CONTEXT_KEY" in norm(v))
-    dec = [x for x in ast.walk(rf) if isinstance(x, ast.AugAssign) and isinstance(x.op, ast.Sub) and norm(x.target) == iv]
+    ins_ = [c for c in calls(rf) if norm(c.func).endswith(".dicts.insert") and c.args and isinstance(c.args[0], ast.Name)]
+    iv = ins_[0].args[0].id if ins_ and any("_COMPONENT_CONTEXT_KEY" in norm(v) for v in defs_closure(rf, ins_[0].args[0].id)) else None
+    # the "one layer further down" correction: `iv -= 1` or `iv = <...> - 1`
+    dec = [x for x in ast.walk(rf) if (isinstance(x, ast.AugAssign) and isinstance(x.op, ast.Sub) and norm(x.target) == iv)
+           or (isinstance(x, ast.Assign) and norm(x.targets[0]) == iv and isinstance(x.value, ast.BinOp) and isinstance(x.value.op, ast.Sub) and isinstance(x.value.right, ast.Constant) and x.value.right.value == 1 and "len(" not in norm(x.value))]
+    # which Context the fill is rendered in is decided in SlotNode.render; the marker it leaves for the render function
+    sm_, sf_ = proj.func("slots", "SlotNode.render")
+    ctxp = params(sf_)[1]
+    marker = None
+    for st in stmts(sf_):
+        if isinstance(st, ast.Assign) and isinstance(st.targets[0], ast.Subscript) and norm(st.targets[0].value) == "extra_context" and isinstance(st.value, ast.Compare) and len(st.value.ops) == 1 and isinstance(st.value.ops[0], (ast.Is, ast.IsNot)) and ctxp in {norm(st.value.left), norm(st.value.comparators[0])}:
+            marker = (norm(st.targets[0].slice), isinstance(st.value.ops[0], ast.IsNot), st)
+    def _marker_atoms(node: ast.AST) -> List[Tuple[str, bool]]:
+        return [(t, pol) for t, pol in cond_atoms(node) if marker is not None and marker[0] in t]
     if not iv:
         chk.undecided("S12", "slots:render_func:position-correction-unconditional", rm.loc(rf), "component-layer index not found")
     elif dec:
-        okd = all(d in rf.body for d in dec)
+        other = [(t, pol) for d in dec for t, pol in cond_atoms(d) if not (marker is not None and marker[0] in t)]
+        # once the outer-context case has its own branch (F51), this branch runs only on the slot's own context, which always
+        # holds the component's layers: a guard for "no component layer" there is dead code, not a change of behaviour
+        has_outer_branch = marker is not None and any(_marker_atoms(d) for d in dec)
+        okd = not other or has_outer_branch
         chk.ob("S12", "slots:render_func:position-correction-unconditional", rm.loc(dec[0]), okd,
-               f"`{short(dec[0])}` runs on every path (also when no component layer was found: index 0 becomes -1, i.e. just under the top layer)" if okd else
-               f"`{short(dec[0])}` is conditional: when the fill's context has no component layer (a component used directly in a page, isolated mode) the captured variables are inserted at the BOTTOM of the context instead of just under the top layer, and page variables of the same name win")
+               f"`{short(dec[0])}` runs on every path of the own-context case (also when no component layer was found: index 0 becomes -1, i.e. just under the top layer)" if okd else
+               f"`{short(dec[0])}` is conditional (`{('' if other[0][1] else 'not ') + other[0][0]}`): when the fill's context has no component layer (a component used directly in a page, isolated mode) the captured variables are inserted at the BOTTOM of the context instead of just under the top layer, and page variables of the same name win")
     else:
         chk.holds("S12", "slots:render_func:position-correction-unconditional", rm.loc(rf), "no position correction is needed any more (the extra layer is gone)", nontrivial=False)
+    # F51: when the fill is rendered in the context from OUTSIDE the component (isolated mode), the last component layer of that
+    # context is the ENCLOSING component's; the captured variables are nearer than anything in it and go right under the top layer
+    if iv:
+        tops = [st for st in ast.walk(rf) if isinstance(st, ast.Assign) and norm(st.targets[0]) == iv and re.fullmatch(r"len\((\w+)\.dicts\) - 1", norm(st.value)) and any(pol == marker[1] for _t, pol in _marker_atoms(st))] if marker is not None else []
+        uncond_marker = marker is not None and marker[2] in sf_.body
+        okm = bool(tops) and uncond_marker
+        chk.ob("S12", "slots:render_func:outer-context-case-goes-under-the-top-layer", rm.loc(tops[0]) if tops else rm.loc(rf), okm,
+               f"SlotNode.render records `{short(marker[2].value)}` under {marker[0]} in the layer it pushes, and the render function then places the captured layer at `len(ctx.dicts) - 1`" if okm else
+               "the captured layer is always positioned relative to the LAST COMPONENT LAYER of the fill's context; in isolated mode that context is the one from outside the component, its last component layer belongs to the enclosing component, and every binding the enclosing template made above it shadows the captured variables: inside a component template `{% with a=1 %}{% component .. %}{% with a=2 %}{% fill .. %}{{ a }}` prints 1 (the same body in a page prints 2)")
 
 
 def s10_mode_source(chk: Check, proj: Project, w) -> None:
@@ -609,7 +654,8 @@ def s6(chk: Check, proj: Project, w) -> None:
     ins = [c for c in calls(f2) if norm(c.func).endswith(".dicts.insert")]
     if ins:
         iv = norm(ins[0].args[0])
-        d = [v for _s, v in assignments(f2, iv) if isinstance(v, ast.Call)]
+        # every search for a component layer among the definitions of the index (the call may be wrapped: `... or 0`)
+        d = [c_ for v in defs_closure(f2, iv) for c_ in ast.walk(v) if isinstance(c_, ast.Call) and last_attr(c_.func) in ("get_last_index", "get_index") and "_COMPONENT_CONTEXT_KEY" in norm(c_)]
         ok = len(d) == 1 and last_attr(d[0].func) == "get_last_index" and "_COMPONENT_CONTEXT_KEY in" in norm(d[0])
         chk.ob("S6", "slots:render_func:fill-layer-below-last-component-layer", m2.loc(ins[0]), ok, "the captured-variable layer is positioned with get_last_index(<component layers>)" if ok else
                f"the layer with the fill's captured {{% with %}}/{{% for %}} variables is positioned with `{short(d[0]) if d else '?'}` (first component layer, not the last): inside nested components the enclosing component's data shadows the variables bound between the tag and the fill")
